@@ -472,6 +472,7 @@ GLOBAL_ASSUMPTIONS = [
     "Python ints are mathematical integers (true in CPython); str is a sequence of code points encoded as SMT-LIB String",
     "mutable containers are modelled as values: aliasing of one list/dict through two names is outside the verified subset",
     "exception message texts are not modelled; building a message is assumed not to raise",
+    "closures capture the values of their free variables when they are created (a closure that reads an iteration variable freely is refused as outside the subset)",
     "recursion depth, memory exhaustion, hash/iteration order of sets are not modelled",
     "closed-world class hierarchy: the classes defined in /repo at extraction time",
     "type annotations, comments and docstrings are dropped by the extraction; everything else of a function body is kept",
